@@ -2,7 +2,7 @@
     Statements only; the sweep is in Theory/CircleTheory.v and is re-run whenever the
     catalogue (regenerated from the implementation on every run) changes. *)
 Require Import SB.Model.Base SB.Model.Geom SB.Model.FragBuf SB.Model.Endorse SB.Theory.CircleTheory SB.Gen.CircleTables
-  SB.Theory.ShiftTheory SB.Theory.ShiftFrag SB.Theory.ShiftBuf SB.Theory.ShiftEndorse.
+  SB.Theory.ShiftTheory SB.Theory.ShiftFrag SB.Theory.ShiftBuf SB.Theory.ShiftEndorse SB.Theory.SepTheory SB.Theory.SepOrder.
 
 (** For each of the drawings of the catalogue (bound: the 22 entries of [circles_span]),
     placed at the origin: the accepted fragments are exactly one circle and there is no
@@ -40,8 +40,34 @@ Check C13_catalogue_anywhere :
       = Ok ([FS (shift_span k n s) (FCircle (Circle (shift_point k n (ccenter c)) (cradius c) (cfilled c)))], [])
       /\ endorse_cells (sort_cells (snd entry)) = Ok ([FS s (FCircle c)], []).
 
-(** Next to unrelated separated content: decided by the independence property (C10) and by the
-    correspondence of this check (offsets 0..60 x 0..40 with and without context). *)
+(** Next to unrelated content: whatever else is drawn, as long as no cell of it is adjacent to a
+    cell of the drawing (the drawing, moved anywhere, is one side [inA] of a separated cell map),
+    the fragments accepted from the cells of the drawing are exactly that one circle, and none
+    of the remaining contact groups comes from its cells.  From the theorem above and the
+    restriction theorem of C10 ([endorse_cells_of_side]). *)
+Theorem C13_next_to_unrelated_content :
+  forall entry (k n : Z) (inA : cell -> bool) cells acc groups, In entry circles_span ->
+    separated inA cells ->
+    filter (fun e => inA (fst e)) cells = map (shift_cc k n) (sort_cells (snd entry)) ->
+    endorse_cells cells = Ok (acc, groups) ->
+    exists s c,
+      endorse_cells (sort_cells (snd entry)) = Ok ([FS s (FCircle c)], [])
+      /\ filter (fsside inA) acc = [FS (shift_span k n s) (FCircle (Circle (shift_point k n (ccenter c)) (cradius c) (cfilled c)))]
+      /\ filter (cside inA) groups = [].
+Proof.
+  intros entry k n inA cells acc groups H Sep F E.
+  destruct (C13_catalogue_anywhere entry k n H) as [s [c [E1 E0]]]. exists s, c. split; [exact E0|].
+  pose proof (endorse_cells_of_side inA cells acc groups Sep E) as R. rewrite F, E1 in R. inversion R. split; reflexivity.
+Qed.
+Check C13_next_to_unrelated_content :
+  forall entry (k n : Z) (inA : cell -> bool) cells acc groups, In entry circles_span ->
+    separated inA cells ->
+    filter (fun e => inA (fst e)) cells = map (shift_cc k n) (sort_cells (snd entry)) ->
+    endorse_cells cells = Ok (acc, groups) ->
+    exists s c,
+      endorse_cells (sort_cells (snd entry)) = Ok ([FS s (FCircle c)], [])
+      /\ filter (fsside inA) acc = [FS (shift_span k n s) (FCircle (Circle (shift_point k n (ccenter c)) (cradius c) (cfilled c)))]
+      /\ filter (cside inA) groups = [].
 
 Example C13_nonvacuous : exists e, In e circles_span /\ cradius (fst e) = 360.
 Proof. eexists; split; [do 17 right; left; reflexivity|reflexivity]. Qed.
